@@ -31,6 +31,13 @@ type functionOperator struct {
 	call         FunctionCall
 	scalarPoints [][]float64
 	pointBuf     []promql.Point
+
+	// Step cursor, used by scalar(), which has to deliver one value for every
+	// step even when its argument delivers nothing.
+	currentStep int64
+	maxt        int64
+	step        int64
+	stepsBatch  int
 }
 
 type noArgFunctionOperator struct {
@@ -49,7 +56,8 @@ func (o *noArgFunctionOperator) Explain() (me string, next []model.VectorOperato
 }
 
 func (o *noArgFunctionOperator) Series(ctx context.Context) ([]labels.Labels, error) {
-	return []labels.Labels{}, nil
+	// A scalar is a single series without labels, like a number literal.
+	return make([]labels.Labels, 1), nil
 }
 
 func (o *noArgFunctionOperator) GetPool() *model.VectorPool {
@@ -103,6 +111,11 @@ func NewFunctionOperator(funcExpr *parser.Call, call FunctionCall, nextOps []mod
 	for i := 0; i < stepsBatch; i++ {
 		scalarPoints[i] = make([]float64, len(nextOps)-1)
 	}
+	interval := opts.Step.Milliseconds()
+	// We set interval to be at least 1.
+	if interval == 0 {
+		interval = 1
+	}
 	f := &functionOperator{
 		nextOps:      nextOps,
 		call:         call,
@@ -110,6 +123,10 @@ func NewFunctionOperator(funcExpr *parser.Call, call FunctionCall, nextOps []mod
 		vectorIndex:  0,
 		scalarPoints: scalarPoints,
 		pointBuf:     make([]promql.Point, 1),
+		currentStep:  opts.Start.UnixMilli(),
+		maxt:         opts.End.UnixMilli(),
+		step:         interval,
+		stepsBatch:   stepsBatch,
 	}
 
 	for i := range funcExpr.Args {
@@ -163,6 +180,10 @@ func (o *functionOperator) Next(ctx context.Context) ([]model.StepVector, error)
 		return nil, err
 	}
 
+	if o.funcExpr.Func.Name == "scalar" {
+		return o.scalarNext(vectors), nil
+	}
+
 	if len(vectors) == 0 {
 		return nil, nil
 	}
@@ -191,19 +212,6 @@ func (o *functionOperator) Next(ctx context.Context) ([]model.StepVector, error)
 	}
 
 	for batchIndex, vector := range vectors {
-		// scalar() depends on number of samples per vector and returns NaN if len(samples) != 1.
-		// So need to handle this separately here, instead of going via call which is per point.
-		if o.funcExpr.Func.Name == "scalar" {
-			if len(vector.Samples) <= 1 {
-				continue
-			}
-
-			vectors[batchIndex].Samples = vector.Samples[:1]
-			vectors[batchIndex].SampleIDs = vector.SampleIDs[:1]
-			vector.Samples[0] = math.NaN()
-			continue
-		}
-
 		// Functions can drop samples (e.g. clamp with max < min), so the
 		// vector is compacted in place while it is transformed.
 		n := 0
@@ -231,6 +239,36 @@ func (o *functionOperator) Next(ctx context.Context) ([]model.StepVector, error)
 	return vectors, nil
 }
 
+// scalarNext evaluates scalar(v) for the next batch of steps. scalar() delivers
+// exactly one value for every step of the query: the value of the single
+// element of v at that step, and NaN if v has no or several elements there -
+// also when v has no series at all or its stream has ended.
+func (o *functionOperator) scalarNext(vectors []model.StepVector) []model.StepVector {
+	if o.currentStep > o.maxt {
+		return nil
+	}
+
+	pool := o.GetPool()
+	if vectors == nil {
+		vectors = pool.GetVectorBatch()
+	}
+	for i := 0; i < o.stepsBatch && o.currentStep <= o.maxt; i++ {
+		if i >= len(vectors) {
+			vectors = append(vectors, pool.GetStepVector(o.currentStep))
+		}
+		val := math.NaN()
+		if len(vectors[i].Samples) == 1 {
+			val = vectors[i].Samples[0]
+		}
+		vectors[i].T = o.currentStep
+		vectors[i].Samples = append(vectors[i].Samples[:0], val)
+		vectors[i].SampleIDs = append(vectors[i].SampleIDs[:0], 0)
+		o.currentStep += o.step
+	}
+
+	return vectors
+}
+
 func (o *functionOperator) loadSeries(ctx context.Context) error {
 	var err error
 	o.once.Do(func() {
@@ -240,7 +278,8 @@ func (o *functionOperator) loadSeries(ctx context.Context) error {
 		}
 
 		if o.funcExpr.Func.Name == "scalar" {
-			o.series = []labels.Labels{}
+			// A scalar is a single series without labels, like a number literal.
+			o.series = make([]labels.Labels, 1)
 			return
 		}
 
